@@ -274,6 +274,11 @@ func resolveVal(v string, filelen, soh, cert int) uint32 {
 	case "CERT+9":
 		return uint32(cert + 9)
 	}
+	if strings.HasPrefix(v, "CERT+") {
+		var k int
+		fmt.Sscan(v[5:], &k)
+		return uint32(cert + k)
+	}
 	var n uint32
 	fmt.Sscan(v, &n)
 	return n
